@@ -712,7 +712,7 @@ class MargIcdf(Contract):
         return {"confirmed": bool(bad), "detail": f"(p, precision_factor, sample sizes drawn, documented size): {bad}" if bad else "sample sizes as documented"}
 
 
-@contract(GHM + ".draw_sample", ["C07", "C16"], [dict(rs=r) for r in ("seed", "generator")], name="ghm.draw_sample.any_n_dim")
+@contract(GHM + ".draw_sample", ["C07", "C16", "C03", "C04"], [dict(rs=r) for r in ("seed", "generator")], name="ghm.draw_sample.any_n_dim")
 class GhmDrawSym(Contract):
     """the sampling clause for a SYMBOLIC number of variables and an arbitrary admissible conditional_on: loop
     invariant through an arbitrary fixed cell (k0, j0) - once column j0 is drawn it is the (conditional) quantile of
